@@ -15,7 +15,7 @@ cp $SRC/demo_test.go $A/$DEMOPKG/zz_seeded_demo_test.go; cp $SRC/demo_test.go $B
 (cd $B/utils && go test -count=1 -run '^TestSeededDemo$' ./${DEMOPKG#utils/}/ > /tmp/seed_with.log 2>&1); RC=$?
 rm $A/$DEMOPKG/zz_seeded_demo_test.go $B/$DEMOPKG/zz_seeded_demo_test.go
 # timing-dependent tests that fail now and then on the untouched tree are left out of the comparison
-FLAKY='TestLockConcurrentSafeguard\|TestLockSequential\|TestLockStale\|TestClientHappy\|TestClientWithDifferentBodies'
+FLAKY='TestLockConcurrentSafeguard\|TestLockSequential\|TestLockStale\|TestClientHappy\|TestClientWithDifferentBodies\|TestExecuteEmptyLines\|TestRemoveEntry'
 BASEKEY=/tmp/seedbase-$(echo "$PKGS" | md5sum | cut -c1-12)-$(git -C /repo rev-parse --short HEAD).log
 if [ ! -s $BASEKEY ]; then
 (cd $A/utils && go test -count=1 $PKGS 2>&1 | grep -- "^--- FAIL\|^    --- FAIL\|^FAIL\|^ok" | grep -v "$FLAKY" | sed 's/ ([0-9.]*s)//; s/\t[0-9.]*s$//' | sort > $BASEKEY)
